@@ -58,7 +58,8 @@ def replay(rec, ctx):
                     setattr(obj, e["op"], np.zeros((2, 3, 1), dtype=(np.int32 if e["op"] == "voxel_map" else bool)))
                 elif e["op"] == "voxel_map":
                     # the map as int32 or as numpy's default int64 (the object converts), alternating with the history length
-                    obj.voxel_map = _arr(e["m"], np.int32 if len(h) % 2 else np.int64)
+                    vm_ = _arr(e["m"], np.int32 if len(h) % 2 else np.int64)
+                    obj.voxel_map = np.asfortranarray(vm_) if len(h) % 3 == 0 else vm_        # column-major in memory now and then
                 else:
                     obj.mask = _arr(e["m"], bool if len(h) % 2 else np.uint8)
             except ValueError:
